@@ -25,7 +25,7 @@ func (Engine) Scenarios(property string) []string {
 	case "C03":
 		return []string{"model-untracked", "disk-untracked"}
 	case "C04":
-		return []string{"model", "disk", "disk-remote", "model-outcomes"}
+		return []string{"model", "disk", "disk-remote", "model-outcomes", "disk-docker"}
 	case "C05":
 		return []string{"model-outcomes", "model-outcomes-enum", "model-crash"}
 	case "C06":
@@ -60,7 +60,7 @@ func (Engine) Generate(property, scenario string, seed uint64, tier string) *sim
 	p := &simkit.Plan{Engine: "syncsim", Scenario: scenario, Property: property, Seed: seed, Cfg: map[string]int64{}}
 	r := simkit.NewRand(seed, 1)
 	switch scenario {
-	case "model", "model-untracked", "model-outcomes", "model-outcomes-enum", "model-halt", "model-exec", "lifecycle", "disk", "disk-untracked", "disk-halt", "disk-escape", "disk-lifecycle", "disk-edits", "disk-remote", "disk-fulldev", "disk-exec", "disk-crash", "model-crash":
+	case "model", "model-untracked", "model-outcomes", "model-outcomes-enum", "model-halt", "model-exec", "lifecycle", "disk", "disk-untracked", "disk-halt", "disk-escape", "disk-lifecycle", "disk-edits", "disk-remote", "disk-fulldev", "disk-exec", "disk-crash", "model-crash", "disk-docker":
 		genModel(p, r, tier)
 	case "links-scan", "links-mixed":
 		genLinks(p, r, tier)
@@ -74,7 +74,7 @@ func (Engine) Execute(t *testing.T, plan *simkit.Plan) *simkit.Result {
 	switch plan.Scenario {
 	case "model-outcomes-enum":
 		return execOutcomeEnumeration(t, plan)
-	case "model", "model-untracked", "model-outcomes", "model-halt", "model-exec", "lifecycle", "disk", "disk-untracked", "disk-halt", "disk-escape", "disk-lifecycle", "disk-edits", "disk-remote", "disk-fulldev", "disk-exec", "disk-crash", "model-crash", "links-scan", "links-mixed":
+	case "model", "model-untracked", "model-outcomes", "model-halt", "model-exec", "lifecycle", "disk", "disk-untracked", "disk-halt", "disk-escape", "disk-lifecycle", "disk-edits", "disk-remote", "disk-fulldev", "disk-exec", "disk-crash", "model-crash", "disk-docker", "links-scan", "links-mixed":
 		return execSession(t, plan)
 	}
 	if r := execComponent(t, plan); r != nil {
